@@ -4,5 +4,5 @@ set -u
 ID=$1; PROPS=$2
 [ -z "$(git -C /repo status --porcelain)" ] || { echo "REFUSING: /repo has uncommitted changes"; exit 2; }
 git -C /repo apply /verif/seeded/$ID/patch.diff || { echo "APPLY FAILED"; exit 2; }
-for p in $PROPS; do (cd /verif && ./check $p quick 2>&1 | grep -E "^(VIOLATION|property=)" | cut -c1-230); done
+for p in $PROPS; do (cd /verif && GOCV_OUT=/tmp/w/seedcheck-out ./check $p quick 2>&1 | grep -E "^(VIOLATION|property=)" | cut -c1-230); done
 git -C /repo checkout -- .
